@@ -221,11 +221,20 @@ def resolve_before_effects(ctx):
             out |= direct.get(x, set())
         return out
     entry = [(bb, t) for bb, t in m.calls() if t["callee"]["local"] and callee_base(t) in f.bodies and re.search(r"Result<std::collections::HashMap<[\w:]*TargetId, [\w:]*Target>", f.bodies[callee_base(t)].ret)]
-    ctx.need(len(entry) == 1, "call of the resolver entry point in main")
-    ebb, et = entry[0]
-    conts = [ce for (tb, sb, ce, be) in try_edges(m) if operand_local(m.term(tb)["args"][0]) in m.prov.flows_forward(et["dest"]["local"]) and ce is not None]
+    ctx.need(len(entry) >= 1 and len({callee_base(t) for _, t in entry}) == 1, "call of the resolver entry point in main")
+    # (one call, or one per arm of a `match` over what was requested, their results joined and `?`-checked together)
+    fwd = set()
+    for ebb, et in entry:
+        fwd |= m.prov.flows_forward(et["dest"]["local"])
+    conts = [ce for (tb, sb, ce, be) in try_edges(m) if operand_local(m.term(tb)["args"][0]) in fwd and ce is not None]
     ctx.need(conts, "`?` on the resolver's result in main")
-    after = m.dominated_by_edge(conts[0])
+    after = set()
+    for ce in conts:
+        after |= m.dominated_by_edge(ce)
+    if len(entry) > 1:
+        # each entry call must be checked: every path from it to the end of main passes one of the `?`
+        checks = {ce.src for ce in conts}
+        ctx.need(all(not any(m.term(x)["k"] == "return" for x in (m.reach_from(ebb, avoid=tuple(checks)) - checks)) for ebb, _ in entry), "`?` on the resolver's result in main")
     n = 0
     for bb, t in m.calls():
         cn = t["callee"]["rbase"] or t["callee"]["base"]
@@ -533,13 +542,50 @@ def unique(ctx):
                             blks = b.dominated_by_edge(e)
                             if e.label[1] is True and any(bb in blks for (bb, st) in b.aggregates("Result", "Err")):
                                 dup_tests.append((b, e))
+    # idiom (c): every project is registered under its name as it is loaded - in the function that calls the project loader, a checked insertion keyed by the
+    # loaded project's `name` (a previous entry is an error) that every project with a name passes before the load can succeed
+    loaders = {x.name for x in f.user_bodies() if x.kind in ("Fn", "AssocFn") and re.search(r"Result<[\w:]*Project,", x.ret)}
+    for lb in f.user_bodies():
+        if not any(callee_base(t_) in loaders for _, t_ in lb.calls()):
+            continue
+        for ibb, it in lb.calls():
+            if not re.search(r"(HashMap|BTreeMap|HashSet|BTreeSet)::<.*>::insert$", callee_decl(it)) or len(it["args"]) < 2:
+                continue
+            kat = lb.prov.operand_atoms(it["args"][1], interproc=False)
+            if not (atom_has_field(kat, "name") and atom_callres(kat) & loaders):
+                continue
+            is_map = "Map" in callee_decl(it)
+            checked = _result_checked(lb, it) if is_map else any(
+                e.label and e.label[0] == "bool" and e.label[1] is False and e.label[2] is not None and e.label[2] in lb.prov.flows_forward(it["dest"]["local"]) and
+                any(bb_ in lb.dominated_by_edge(e) for (bb_, _) in lb.aggregates("Result", "Err")) for e in lb.edges)
+            # every named project: the insertion is passed on every path of the `Some(name)` side of the test of the loaded project's name (or is unconditional)
+            somes = [e for e in lb.edges if e.label and e.label[0] == "variant" and e.label[2] == ("Some",) and ibb in lb.dominated_by_edge(e) and
+                     origin_matches(edge_origin(lb, e), lambda o: o[0] == "field" and "name" in o[1])]
+            load_bbs = [cb_ for cb_, t_ in lb.calls() if callee_base(t_) in loaders]
+            oks = [bb_ for (bb_, st_) in lb.aggregates("Result", "Ok") if (st_["lhs"]["local"] == 0 or 0 in lb.prov.flows_forward(st_["lhs"]["local"])) and lb.locals[st_["lhs"]["local"]]["ty"] == lb.locals[0]["ty"]]
+            every = False
+            for e in somes or [None]:
+                R_ = lb.dominated_by_edge(e) if e is not None else None
+                test_bb = e.src if e is not None else ibb
+                # the test (or the insertion itself) is passed by every successful load: no way from the loader call to an Ok return that avoids it
+                avoids = any(ok_ in (lb.reach_from(l_, avoid=(test_bb,)) | {l_}) for l_ in load_bbs for ok_ in oks if ok_ != test_bb)
+                inside = R_ is None or _must_pass_region(lb, R_, ibb)
+                if not avoids and inside:
+                    every = True
+            if checked and every:
+                dup_tests.append((lb, None))
     for (b, bb, t) in cons:
         checked_insert = callee_decl(t).endswith("::insert") and any(True for _ in [0] if _result_checked(b, t))
         # the test must sit on the path that produces the yaml::Config consumed here: in the loader (caller-side dominance is established by types: the map is
         # built from yaml::Config, which only the loader constructs)
-        loader_tests = [(tb, e) for (tb, e) in dup_tests if _constructs_after(ctx, tb, e)]
-        ctx.check(checked_insert or bool(loader_tests), f"{short(b.name)}", [site(b, bb)] + [site(tb, e.src) for tb, e in loader_tests[:1]],
+        loader_tests = [(tb, e) for (tb, e) in dup_tests if e is None or _constructs_after(ctx, tb, e)]
+        ctx.check(checked_insert or bool(loader_tests), f"{short(b.name)}", [site(b, bb)] + [(site(tb, e.src) if e is not None else tb.loc()) for tb, e in loader_tests[:1]],
                   "projects are collected into a map keyed by project name without any duplicate-name test: two projects with the same name overwrite each other in hash order")
+
+
+def _must_pass_region(b, region, bb):
+    from rules_c01 import _must_pass
+    return _must_pass(b, region, bb)
 
 
 def _result_checked(b, t):
@@ -627,9 +673,10 @@ def no_panic_config(ctx):
     m = r.main_body()
     roots = set()
     entry = [(bb, t) for bb, t in m.calls() if t["callee"]["local"] and callee_base(t) in f.bodies and re.search(r"Result<std::collections::HashMap<[\w:]*TargetId, [\w:]*Target>", f.bodies[callee_base(t)].ret) and m.origin(bb) == m.name]
-    ctx.need(len(entry) == 1, "resolver entry in main")
-    ebb = entry[0][0]
-    pre_blocks = m.reach_to(ebb) | {ebb}
+    ctx.need(len(entry) >= 1 and len({callee_base(t) for _, t in entry}) == 1, "resolver entry in main")
+    pre_blocks = set()
+    for ebb, _ in entry:
+        pre_blocks |= m.reach_to(ebb) | {ebb}
     for bb, t in m.calls():
         if bb in pre_blocks:
             cn = t["callee"]["rbase"] or t["callee"]["base"]
@@ -947,7 +994,29 @@ def name_regex(ctx):
         bad = ["", "-", "-a", "a::b", "a:b", "a.b", "a b", "a/b", "a.output", " a", "a\n"]
         wrong = [x for x in good if not rx.search(x)] + [x for x in bad if rx.search(x)]
         ctx.check(not wrong, f"{short(b.name.split('::RE')[0]).split(' ')[0].strip('<')}/accepts-exactly-names", [site(b, bb)], f"the name regex {lit} misclassifies {wrong}: names containing `::`/`.` would make target references ambiguous (and the justified unwraps unjustified)", props=["C14", "C19"])
-    ctx.need(outs, "`X.output` regex literal")
+    if not outs:
+        # a hand-written `X.output` parser instead of a regex: the suffix `.output` is stripped, what remains goes to the name parser (one `::` at most),
+        # and it gets there only past a true verdict of a name validator (one of the fns applying the name regexes above) on it
+        statics = {m.group(1) for (vb, _, _) in vals for m in [re.match(r"<(.*) as std::ops::Deref>", vb.name)] if m}
+        validators = {x.name for x in f.user_bodies() if x.ret == "bool" and any(t["callee"]["base"].endswith("Regex::is_match") and t["args"] and
+                      any(a[0] == "static" and a[1] in statics for a in x.prov.operand_atoms(t["args"][0])) for _, t in x.calls())}
+        parsers = {ctx.r.fn_of(pf).name for pf in parse_fns(ctx)} | {pf.name for pf in parse_fns(ctx)}
+        found = []
+        for hb in f.user_bodies():
+            for sbb, st_ in hb.calls():
+                if not (re.search(r"str>::strip_suffix(::<.*>)?$", callee_base(st_)) and len(st_["args"]) > 1 and '".output"' in atom_consts(hb.prov.operand_atoms(st_["args"][1], interproc=False))):
+                    continue
+                fl = hb.prov.flows_forward(st_["dest"]["local"])
+                pcs = [pb for pb, pt in hb.calls() if callee_base(pt) in parsers and pt["args"] and operand_local(pt["args"][0]) in fl]
+                def validated(d):
+                    return d[0] == "call" and d[1] in validators
+                G = guard_region(hb, validated, True)
+                found.append((hb, sbb, bool(pcs), bool(pcs) and all(pb in G for pb in pcs), bool(validators)))
+        ctx.need(found, "`X.output` regex literal, or a parser stripping the `.output` suffix")
+        for (hb, sbb, parsed, guarded, hv) in found:
+            ctx.check(parsed and guarded and hv, "output-reference/captures-one-qualified-name", [site(hb, sbb)],
+                      "the hand-written `X.output` parser does not hand what precedes `.output` to the name parser under a true verdict of the name validators "
+                      "(`a.b.output`, `a::b::c.output` ... must be refused)", props=["C14", "C19", "C09", "C13"])
     for (b, bb, lit) in outs:
         try:
             rx = _re.compile(_py_regex(lit))
